@@ -82,8 +82,7 @@ def worker(job, r):
         for host, port, path, query, frag in combos[:14]:
             if query is not None and path is None and rng.random() < 0.5:
                 path = '/'
-            if frag is not None and path is None and query is None:
-                path = '/'      # domain decision: the vendored http_parser does not accept '#' right after the authority
+            # (a fragment directly after the authority - no path, no query - is part of the grammar the property gives)
             if rng.random() < 0.12:
                 # long URIs (an access token in the query, a deep path): every size around 2^11, 2^12, 2^13 and up to ~60000 characters
                 n = rng.choice([2000, 2030, 2040, 2047, 2048, 2049, 2060, 4090, 4096, 4100, 8192, 20000, 60000]) + rng.randrange(-3, 4)
